@@ -1,6 +1,6 @@
 """SRC — source equality (development plugin, not one of the C-properties).
 
-Theorems (Props/SRC.v: extension algebra; Props/SRCfilter.v: key filter): the hand-written models of the small pure functions the extension algebra and the key
+Theorems (Props/SRC.v: extension algebra; Props/SRCfilter.v: key filter; Props/SRClookup.v: NiftiWrapper lookups): the hand-written models of the small pure functions the extension algebra and the key
 filter rest on are EQUAL, for all inputs, to the definitions TRANSLATED on every run from the current Python
 sources (tools/tables/t_src_ext.py, t_src_filter.py -> coq/Generated/T_src_ext.v, T_src_filter.v).
 
@@ -9,20 +9,25 @@ with what the real functions return / raise — this validates the translator (p
 its primitives (Common/PyOps2.v), i.e. exactly the part the theorems have to trust.  The oracle is an independent
 reference written from the documentation of each function."""
 import os
-from vlib.coqlit import cnat, cz, cbool, clist, copt, cpair, cstr
+from fractions import Fraction
+from vlib.coqlit import cnat, cz, cbool, clist, copt, cpair, cstr, cq, cjv
 
 ID = "SRC"
-COQ_PROPS = ["Props/SRC.v", "Props/SRCfilter.v"]
+COQ_PROPS = ["Props/SRC.v", "Props/SRCfilter.v", "Props/SRClookup.v"]
 THEOREMS = ["SRC_is_constant", "SRC_is_repeating", "SRC_class_names", "SRC_valid_classes", "SRC_class_valid", "SRC_multiplicity",
-            "SRC_multiplicity_foreign", "SRC_const_period", "SRC_n_slices", "SRC_key_regex_filter", "SRC_make_key_regex_filter"]
-TABLES = ["t_src_ext", "t_src_filter", "t_classes", "t_ext_tol"]
+            "SRC_multiplicity_foreign", "SRC_const_period", "SRC_n_slices", "SRC_key_regex_filter", "SRC_make_key_regex_filter",
+            "SRC_meta_valid", "SRC_get_meta", "SRC_getitem"]
+TABLES = ["t_src_ext", "t_src_filter", "t_src_lookup", "t_classes", "t_ext_tol"]
 ALLOWED_AXIOMS = []
 TRUSTED_BASE = ["tools/tables/py2coq.py (+ t_src_ext.py, t_src_filter.py): typed statement translator Python -> Gallina, "
                 "fail-closed outside the vocabulary documented in its docstring",
                 "coq/Common/PyOps2.v part 1: the meaning of the translated primitives (slices, indexing, //, %, range, all, for, ==, in)",
                 "a compiled regular expression is represented by its search predicate; re.compile is a parameter whose only assumed "
                 "property is the hypothesis of SRC_make_key_regex_filter (the alternation of the parts matches iff one part does)"]
-ASSUMPTIONS = ["Python ints that are sizes, periods or indices are non-negative (nat)",
+ASSUMPTIONS = ["Python ints that are sizes, periods or list positions are non-negative (nat); voxel indices of get_meta are ints of either sign (Z)",
+               "lookups: everything read from the image / extension is a parameter (Ext/SrcEqLookup.v says how the model's img / hdr / ext "
+               "records provide it); `values[i]` on a value is the parameter vindex, tied to the model's value list by the hypothesis of "
+               "SRC_get_meta; np.allclose is the exact-Q Seq.allclose",
                "element equality (==) of sequence values is a total function without side effects (the parameter veqb)",
                "self.n_slices is read as a parameter by get_multiplicity / _get_const_period (the property itself is related to the "
                "model by SRC_n_slices on slice_dim < ndim)"]
@@ -283,4 +288,249 @@ class Calls:
                     yield c
 
 
-PARTS = [Calls]
+
+
+
+# ================================================================== part "lookups"
+
+def _jv_ok(v):
+    """values whose `v[i]` behaves like JSON array indexing / TypeError: no str, no dict"""
+    if isinstance(v, list):
+        return all(_jv_ok(x) for x in v)
+    return v is None or (isinstance(v, int) and not isinstance(v, bool))
+
+
+def _agrees(en, c):
+    """declarative 'the image still matches the extension for class c' (from the docstring of meta_valid)"""
+    if c == ('global', 'const'):
+        return True
+    ms, ish = en['meta_shape'], en['img_shape']
+    if c == ('vector', 'samples'):
+        return ms[4:] == ish[4:]
+    if c == ('time', 'samples'):
+        return ms[3:] == ish[3:]
+    if en['img_sd'] is None or en['meta_sd'] is None or en['meta_ns'] != en['img_ns']:
+        return False
+    a = [Fraction(x) for x in en['rows'][en['img_sd']][:3]]
+    b = [Fraction(x) for x in en['normal']]
+    if len(a) != len(b) or not all(abs(x - y) <= Fraction(1, 10**6) + Fraction(1, 10**5) * abs(y) for x, y in zip(a, b)):
+        return False
+    if c == ('time', 'slices'):
+        return True
+    if c == ('vector', 'slices'):
+        return ms[3:4] == ish[3:4]
+    return ms[3:] == ish[3:]
+
+
+class Lookups:
+    NAME = "lookups"
+    CORR_REQUIRE = "From DV Require Import Common.Jv Ext.SrcEqLookupCorr."
+    CORR_CASE_TYPE = "SrcEqLookupCorr.case"
+    CORR_CHECK = "SrcEqLookupCorr.check"
+    CORR_SHOW = "SrcEqLookupCorr.show"
+    SHARD = 300
+    RULE = ("random calls of NiftiWrapper.meta_valid / get_meta / __getitem__ on stub image / extension objects that supply exactly the "
+            "reads of the translation: shapes of 2..6 dimensions (image = extension shape, or perturbed), slice dims None/0..2, slice counts "
+            "equal / different, affine rows equal / within / beyond the tolerance, the six classes and foreign ones, values lists / scalars / "
+            "None / nested, indices in range / out of range / negative / wrong length / None; non-trivial = a value of a varying class is returned")
+
+    @staticmethod
+    def gen_cases(rng, tier):
+        n = 900 if tier == "quick" else 20000
+        out = []
+        for _ in range(n):
+            nd = rng.choice([2, 3, 3, 4, 4, 4, 5, 5, 5, 5, 6])
+            ish = [rng.choice([1, 2, 2, 3, 4]) for _ in range(nd)]
+            ms = list(ish)
+            r = rng.random()
+            if r < 0.15 and nd > 3:
+                j = rng.randrange(3, nd)
+                ms[j] = ms[j] + 1
+            elif r < 0.25:
+                ms = ms[:-1] if rng.random() < 0.5 else ms + [2]
+            elif r < 0.3:
+                ms[rng.randrange(min(3, nd))] += 1
+            img_sd = rng.choice([None, 0, 1, 2, 2, 2, 2, 2])
+            meta_sd = img_sd if rng.random() < 0.9 else rng.choice([None, 0, 1, 2])
+            img_ns = ish[img_sd] if img_sd is not None and img_sd < nd else 0
+            meta_ns = None if meta_sd is None else (ms[meta_sd] if meta_sd < len(ms) else 1)
+            if rng.random() < 0.1 and meta_ns is not None:
+                meta_ns += 1
+            rows = [[rng.choice([0, 1, -1, 2, 0.5]) for _ in range(4)] for _ in range(4)]
+            normal = list(rows[img_sd if img_sd is not None else 0][:3])
+            r = rng.random()
+            if r < 0.15:
+                normal[rng.randrange(3)] += 2.0 ** -30      # within the tolerance
+            elif r < 0.3:
+                normal[rng.randrange(3)] += 2.0 ** -10      # beyond
+            elif r < 0.35:
+                normal = [float(-x) for x in normal]
+            en = {'img_shape': ish, 'meta_shape': ms, 'img_sd': img_sd, 'meta_sd': meta_sd, 'img_ns': img_ns, 'meta_ns': meta_ns,
+                  'rows': [[float(x) for x in row] for row in rows], 'normal': [float(x) for x in normal]}
+            f = rng.choice(['meta_valid', 'get_meta', 'get_meta', 'get_meta', 'getitem'])
+            c = {'kind': f, 'f': f, 'env': en}
+            cl = list(rng.choice(PYCLS * 6 + FOREIGN))
+            if f == 'meta_valid':
+                c['c'] = cl
+            elif f == 'getitem':
+                keys = ['a', 'b', 'ab']
+                c['d'] = [[k, rng.choice([1, None, [1, 2], [[3]], 0])] for k in keys if rng.random() < 0.6]
+                c['key'] = rng.choice(keys + ['zz'])
+            else:
+                c['classes'] = rng.choice([cl] * 9 + [None])
+                tot = 1
+                for x in ish:
+                    tot *= x
+                m = rng.choice([1, 2, 3, 4, 6, 8, 12, tot, tot]) if rng.random() < 0.7 else rng.randrange(0, 20)
+                kindv = rng.random()
+                if c['classes'] is None:
+                    vals = None
+                elif kindv < 0.8:
+                    vals = [rng.choice([i, i, [i], None]) for i in range(min(m, 200))]
+                elif kindv < 0.9:
+                    vals = rng.choice([5, None])
+                else:
+                    vals = [[i, i + 1] for i in range(min(m, 50))]
+                c['values'] = vals
+                r = rng.random()
+                if r < 0.12:
+                    idx = None
+                else:
+                    idx = [rng.randrange(x) for x in ish]
+                    if r < 0.24 and idx:
+                        j = rng.randrange(len(idx))
+                        idx[j] = rng.choice([ish[j], -1, ish[j] + 1, -ish[j]])
+                    elif r < 0.32:
+                        idx = idx[:-1] if rng.random() < 0.5 else idx + [0]
+                c['index'] = idx
+                c['default'] = rng.choice([None, -7, [0]])
+            out.append(c)
+        return out
+
+    @staticmethod
+    def run_impl(case):
+        import numpy as np
+        from dcmstack import dcmmeta
+        en = case['env']
+
+        class Hdr(object):
+            def get_dim_info(self):
+                return (None, None, en['img_sd'])
+
+            def get_n_slices(self):
+                return en['img_ns']
+
+        class Img(object):
+            shape = tuple(en['img_shape'])
+            affine = np.array(en['rows'], dtype=float)
+            header = Hdr()
+
+        class MExt(object):
+            shape = tuple(en['meta_shape'])
+            slice_dim = en['meta_sd']
+            n_slices = en['meta_ns']
+            slice_normal = np.array(en['normal'], dtype=float)
+
+            def get_values_and_class(self, key):
+                cl = case.get('classes')
+                return (case.get('values'), None if cl is None else tuple(cl))
+
+            def get_class_dict(self, c):
+                return dict((k, v) for k, v in case['d'])
+        w = dcmmeta.NiftiWrapper.__new__(dcmmeta.NiftiWrapper)
+        w.nii_img, w.meta_ext = Img(), MExt()
+        try:
+            if case['f'] == 'meta_valid':
+                return {'bool': bool(w.meta_valid(tuple(case['c'])))}
+            if case['f'] == 'getitem':
+                return {'val': w[case['key']]}
+            idx = case['index']
+            return {'val': w.get_meta('k', None if idx is None else tuple(idx), case['default'])}
+        except (ValueError, IndexError, KeyError, TypeError, ZeroDivisionError, AssertionError) as e:
+            return {'err': ERR[type(e).__name__]}
+
+    @staticmethod
+    def coq_case(case, obs):
+        en = case['env']
+        env = ('(SrcEqLookupCorr.mk_env %s %s %s %s %s %s %s %s)'
+               % (clist(cnat(x) for x in en['img_shape']), clist(cnat(x) for x in en['meta_shape']), copt(en['img_sd'], cnat),
+                  copt(en['meta_sd'], cnat), cnat(en['img_ns']), copt(en['meta_ns'], cnat),
+                  clist(clist(cq(x) for x in row) for row in en['rows']), clist(cq(x) for x in en['normal'])))
+        f = case['f']
+        if f == 'meta_valid':
+            call = '(SrcEqLookupCorr.CMetaValid %s)' % _cname(case['c'])
+        elif f == 'getitem':
+            call = '(SrcEqLookupCorr.CGetItem %s %s)' % (clist(cpair(cstr(k), cjv(v)) for k, v in case['d']), cstr(case['key']))
+        else:
+            call = '(SrcEqLookupCorr.CGetMeta %s %s %s %s)' % (
+                cjv(case['values']), copt(case['classes'], _cname), copt(case['index'], lambda l: clist(cz(x) for x in l)),
+                cjv(case['default']))
+        if 'err' in obs:
+            o = '(SrcEqLookupCorr.OErr %s)' % obs['err']
+        elif 'bool' in obs:
+            o = '(SrcEqLookupCorr.OBool %s)' % cbool(obs['bool'])
+        else:
+            o = '(SrcEqLookupCorr.OVal %s)' % cjv(obs['val'])
+        return 'SrcEqLookupCorr.mk_case %s %s %s' % (env, call, o)
+
+    @staticmethod
+    def oracle(case, obs):
+        """judges only the documented, well-formed region: 3..5-D image, class among the six, value lists long enough"""
+        en, f = case['env'], case['f']
+        ish = en['img_shape']
+        if f == 'getitem':
+            d = dict((k, v) for k, v in case['d'])
+            want = {'val': d[case['key']]} if case['key'] in d else {'err': 'EKey'}
+            return None if obs == want else 'getitem %r: %r, expected %r' % (case['key'], obs, want)
+        if f == 'meta_valid':
+            c = tuple(case['c'])
+            if c not in PYCLS:
+                return None
+            want = {'bool': _agrees(en, c)}
+            return None if obs == want else 'meta_valid%r with %r: %r, expected %r' % (c, en, obs, want)
+        cl, vals, idx = case['classes'], case['values'], case['index']
+        if cl is None:
+            want = {'val': case['default']}
+        elif tuple(cl) == ('global', 'const'):
+            want = {'val': vals}
+        elif tuple(cl) not in PYCLS:
+            return None
+        elif not _agrees(en, tuple(cl)) or idx is None:
+            want = {'val': case['default']}
+        elif len(idx) != len(ish) or not all(0 <= i < s for i, s in zip(idx, ish)):
+            want = {'err': 'EIndex'}
+        else:
+            if not (3 <= len(ish) <= 5) or not isinstance(vals, list):
+                return None
+            c = tuple(cl)
+            t = idx[3] if len(ish) > 3 else 0
+            v = idx[4] if len(ish) > 4 else 0
+            T = ish[3] if len(ish) > 3 else 1
+            if c[1] == 'samples':
+                if (c[0] == 'time' and len(ish) < 4) or (c[0] == 'vector' and len(ish) < 5):
+                    return None
+                pos = t + T * v if c[0] == 'time' else v
+            else:
+                sd = en['img_sd']
+                if sd is None:
+                    return None
+                S = ish[sd]
+                if c[0] == 'vector' and len(ish) < 4:
+                    return None
+                pos = idx[sd] + S * {'global': t + T * v, 'time': 0, 'vector': t}[c[0]]
+            if pos >= len(vals):
+                return None
+            want = {'val': vals[pos]}
+        return None if obs == want else 'get_meta(%r, %r) with values %r, class %r: %r, expected %r' % ('k', idx, vals, cl, obs, want)
+
+    @staticmethod
+    def signature(case, obs, msg):
+        return 'src-' + case['f']
+
+    @staticmethod
+    def nontrivial(case, obs):
+        return case['f'] == 'get_meta' and 'val' in obs and case.get('classes') not in (None, ['global', 'const']) \
+            and case.get('index') is not None and obs['val'] != case.get('default')
+
+
+PARTS = [Calls, Lookups]
